@@ -786,6 +786,8 @@ def r2_1(rep):
                 continue
             name = short(alt)
             r = val(bb, body)
+            if r[0] == "ctor" and r[1] == TK + "::Complex" and r[2] and r[2][0][0] == "path":
+                r = r[2][0]
             got = "Float:" + short(r[1]) if r[0] == "path" and r[1].startswith(FK) else show(r)
             rep.check(got in o_cx.get(name, []), "cxtype-complex:" + name, "_Complex element %s -> %s (oracle: %s)" % (name, got, o_cx.get(name)), bb.loc(body))
 
@@ -808,6 +810,12 @@ def cx_value(r):
             return "%s:%s:%s" % (head, short(a[1]), str(s[1]).lower() if s and s[0] == "lit" else "?")
     if r[0] == "ctor" and r[1] == TK + "::Complex":
         return "Complex"
+    if r[0] == "match":
+        # `match elem.kind() { Float => Complex(Float), .., _ => Opaque }`: a complex type whose non-floating element kinds degrade
+        # to a blob (checked row by row below)
+        ls = [cx_value(x) for x in leaves(r)]
+        if ls and "Complex" in ls and set(ls) <= {"Complex", "Opaque"}:
+            return "Complex"
     return show(r)
 
 
